@@ -89,6 +89,36 @@ def explicit_values(repo: Repo):
                     yield (key, not _string_typed(c.args[0], f), f.where(c), f"{q} constructs a Unit from text together with explicit scale/dimension: Unit.__new__ memoises it under that text in the registry, so later Unit(text) calls get these values instead of the table's (e.g. the copy of a unit made before modify())", "expression object (not text) when values are given", norm(c)[:90])
     if n < 5:
         raise AnalysisError(f"only {n} Unit constructions with explicit values found (7 on the reviewed tree)")
+    # ... and at the root: Unit.__new__ itself touches the per-registry text cache only when the caller gave no explicit
+    # scale - on every path a cached unit is returned, or the text is noted as cache key, under `base_value is None`
+    from engine.flow import enum_paths, fact_get, path_facts
+
+    new = repo.mod(UO).func("Unit.__new__")
+    bv = new.params[2] if len(new.params) > 2 else "base_value"
+    bad, n_sites = None, 0
+    for path in enum_paths(new.body):
+        seen_facts = []
+        for ev in path:
+            if ev[0] == "cond":
+                seen_facts.append(ev)
+                continue
+            node = ev[1] if len(ev) > 1 else None
+            if node is None or ev[0] not in ("stmt", "return"):
+                continue
+            touches = False
+            if isinstance(node, ast.Return) and node.value is not None and "_unit_object_cache" in norm(node.value):
+                touches = True
+            if isinstance(node, ast.Assign) and norm(node.targets[0]) == "unit_cache_key" and not (isinstance(node.value, ast.Constant) and node.value.value is None):
+                touches = True
+            if not touches:
+                continue
+            n_sites += 1
+            fm = {t: tr for t, tr, _ in path_facts(seen_facts)}
+            if fact_get(fm, f"{bv} is None") is not True:
+                bad = bad or node
+    if n_sites == 0:
+        raise AnalysisError(f"{new.where()}: no use of the unit-string cache found in Unit.__new__")
+    yield ("explicit-values:unit_object.py:Unit.__new__:cache-guard", bad is None, new.where(bad) if bad is not None else new.where(), "Unit.__new__ answers from / files into the registry's text cache although the caller supplied an explicit scale: Unit('m', base_value=5.0, dimensions=length, registry=r) makes every later Unit('m', registry=r) - and every conversion to 'm' - use 5.0, and a cached 'm' silently overrides the values given", f"cache read and cache key only under `{bv} is None`", norm(bad)[:80] if bad is not None else "")
 
 
 def calltime_globals(repo: Repo, only_functions=None):
